@@ -337,6 +337,40 @@ namespace
                         }
                         if (threw != (i >= mx.size())) violate("C02/at", "at(%zu) on size %zu: threw=%d", i, mx.size(), (int)threw);
                         if (!threw && got != mx[i]) violate("C02/at", "at(%zu) = %d, std::vector has %d", i, got, mx[i]);
+                        {
+                            // the const overloads answer the same
+                            const Vec &cx = x;
+                            bool cthrew = false;
+                            int cgot = 0;
+                            try
+                            {
+                                cgot = val_of(cx.at(i));
+                            }
+                            catch (const std::out_of_range &)
+                            {
+                                cthrew = true;
+                            }
+                            if (cthrew != threw || (!threw && cgot != got)) violate("C02/at", "const at(%zu) on size %zu: threw=%d value %d, the non-const overload threw=%d value %d", i, mx.size(), (int)cthrew, cgot, (int)threw, got);
+                            if (!mx.empty())
+                            {
+                                size_t j = i % mx.size();
+                                if (val_of(cx[j]) != mx[j] || val_of(cx.front()) != mx.front() || val_of(cx.back()) != mx.back() || cx.data() != x.data())
+                                    violate("C02/index@const", "const operator[] / front / back / data differ from std::vector");
+                            }
+                            size_t q = 0;
+                            for (auto ci = cx.begin(); ci != cx.end(); ++ci, ++q)
+                                if (val_of(*ci) != mx[q]) violate("C02/sequence@const", "const iteration: element %zu differs", q);
+                            if (q != mx.size()) violate("C02/sequence@const", "const iteration yields %zu elements of %zu", q, mx.size());
+                            // igris' rbegin()/rend() are plain pointers to the last element / one before the first, walked with --
+                            q = mx.size();
+                            for (auto ri = x.rbegin(); ri != x.rend(); --ri)
+                            {
+                                if (q == 0) violate("C02/sequence@reverse", "reverse walk does not stop at rend()");
+                                --q;
+                                if (val_of(*ri) != mx[q]) violate("C02/sequence@reverse", "reverse walk: element %zu differs", q);
+                            }
+                            if (q != 0 || cx.rbegin() != x.rbegin() || cx.rend() != x.rend()) violate("C02/sequence@reverse", "reverse walk visited %zu of %zu elements", mx.size() - q, mx.size());
+                        }
 #endif
                         break;
                     }
@@ -397,7 +431,7 @@ namespace
 
 #ifndef C02_TWIN
     // ---------------------------------------------------------------- flat_map / flat_set
-    enum { M_INDEX, M_AT, M_FIND, M_COUNT, M_INSERT, M_EMPLACE, M_CLEAR, M_COPY, S_INSERT, S_COUNT, S_CLEAR, M_N };
+    enum { M_INDEX, M_AT, M_FIND, M_COUNT, M_INSERT, M_EMPLACE, M_CLEAR, M_COPY, S_INSERT, S_COUNT, S_CLEAR, M_ILIST, M_SWAP, M_CAPACITY, M_CONST, M_N };
     struct FlatWorld : World
     {
         const char *name() const override { return "flat_map+flat_set"; }
@@ -405,7 +439,7 @@ namespace
         Plan generate(Rng &r, Tier tier) override
         {
             Plan p;
-            p.cfg = {(int64_t)r.below(4), (int64_t)r.below(2)};
+            p.cfg = {(int64_t)r.below(4), (int64_t)r.below(2), (int64_t)r.below(4)}; // cfg[2]: direction and bucket width of the run-time ordered flat_set
             int n = (int)r.range(3, tier == THOROUGH ? 80 : 40);
             int keys = (int)r.range(2, 12);
             for (int i = 0; i < n; i++) p.ops.push_back({(int64_t)r.below(M_N), (int64_t)r.below(keys), (int64_t)r.below(1000)});
@@ -428,6 +462,20 @@ namespace
                         return da != db ? da < db : a < b;
                     }
                 };
+                // an order chosen at run time: the comparator object handed to the constructor carries a direction and a bucket
+                // width (keys in one bucket are equivalent, as in a case-insensitive or rounded order)
+                struct Directed
+                {
+                    bool descending = false;
+                    int width = 1;
+                    static int fl(int a, int w) { return a >= 0 ? a / w : -((-a + w - 1) / w); }
+                    bool operator()(int a, int b) const { return descending ? fl(b, width) < fl(a, width) : fl(a, width) < fl(b, width); }
+                };
+                Directed dir;
+                dir.descending = mod(p.c(2, 0), 2) != 0;
+                dir.width = mod(p.c(2, 0) / 2, 2) ? 4 : 1;
+                igris::flat_set<int, Directed> fsr(dir);
+                std::set<int, Directed> msr(dir);
                 igris::flat_set<int, std::greater<int>, simalloc::Alloc<int>> fsg;
                 std::set<int, std::greater<int>> msg;
                 igris::flat_set<int, ByDigit> fsd;
@@ -506,13 +554,67 @@ namespace
                         msg.insert(key);
                         fsd.insert(key * 7 - 5);
                         msd.insert(key * 7 - 5);
+                        fsr.insert(key);
+                        msr.insert(key);
                         probe("flat_set_custom_order");
                         break;
                     case S_COUNT:
                         if (fs.count(key) != ms.count(key)) violate("C02/flat_set-count", "count(%d) = %zu, std::set %zu", key, fs.count(key), ms.count(key));
                         break;
+                    case M_ILIST:
+                    {
+                        // construction from an initializer list (keys may repeat: std::map keeps the first of them)
+                        int k2 = (int)mod(arg(o, 2), 16) - 3, k3 = (int)mod(arg(o, 2) / 16, 16) - 3;
+                        if (k2 == key || k3 == key || k2 == k3) probe("initializer_list_with_repeated_key");
+                        fm = FM({{key, val}, {k2, val + 1}, {k3, val + 2}});
+                        mm = std::map<int, int>({{key, val}, {k2, val + 1}, {k3, val + 2}});
+                        break;
+                    }
+                    case M_SWAP:
+                    {
+                        FM other({{100 + key, val}});
+                        std::map<int, int> mother({{100 + key, val}});
+                        fm.swap(other);
+                        mm.swap(mother);
+                        if (other.size() != mother.size()) violate("C02/flat_map-swap", "after swap the other map holds %zu pairs, std::map %zu", other.size(), mother.size());
+                        if (val % 3) { fm.swap(other); mm.swap(mother); }
+                        break;
+                    }
+                    case M_CAPACITY:
+                    {
+                        fm.reserve((size_t)val % 40);
+                        if (fm.capacity() < (size_t)val % 40 || fm.capacity() < fm.size()) violate("C02/flat_map-capacity", "capacity %zu after reserve(%d) with %zu pairs", fm.capacity(), val % 40, fm.size());
+                        if (val % 2) fm.shrink_to_fit();
+                        if (fm.max_size() < fm.size()) violate("C02/flat_map-capacity", "max_size() < size()");
+                        break;
+                    }
+                    case M_CONST:
+                    {
+                        // the const half of the interface and the reverse iterators
+                        const FM &c = fm;
+                        auto jt = mm.find(key);
+                        auto it = c.find(key);
+                        if ((it == c.end()) != (jt == mm.end())) violate("C02/flat_map-find", "const find(%d) found=%d, std::map found=%d", key, (int)(it != c.end()), (int)(jt != mm.end()));
+                        if (jt != mm.end() && (it->second != jt->second || c[key] != jt->second)) violate("C02/flat_map-find", "const find / operator[] (%d) differ from std::map", key);
+                        std::map<int, int> s1, s2, s3;
+                        for (auto i = c.begin(); i != c.end(); ++i) s1[i->first] = i->second;
+                        for (auto i = c.cbegin(); i != c.cend(); ++i) s2[i->first] = i->second;
+                        size_t n = 0;
+                        for (auto i = fm.rbegin(); i != fm.rend(); ++i, ++n) s3[i->first] = i->second;
+                        if (s1 != mm || s2 != mm || s3 != mm || n != mm.size()) violate("C02/flat_map-iteration", "const / reverse iteration does not yield the stored pairs");
+                        n = 0;
+                        for (auto i = c.crbegin(); i != c.crend(); ++i) n++;
+                        for (auto i = c.rbegin(); i != c.rend(); ++i) n++;
+                        if (n != 2 * mm.size()) violate("C02/flat_map-iteration", "const reverse iteration yields %zu pairs for 2 x %zu", n, mm.size());
+                        const FS &cs = fs;
+                        n = 0;
+                        for (auto i = cs.begin(); i != fs.end(); ++i) n++;
+                        if (n != ms.size() || (cs.cbegin() == fs.end()) != ms.empty()) violate("C02/flat_set-iteration", "const iteration of flat_set yields %zu keys, std::set holds %zu", n, ms.size());
+                        (void)fs.get_allocator();
+                        break;
+                    }
                     case S_CLEAR:
-                        if (val % 5 == 0) { fs.clear(); ms.clear(); fsg.clear(); msg.clear(); fsd.clear(); msd.clear(); }
+                        if (val % 5 == 0) { fs.clear(); ms.clear(); fsg.clear(); msg.clear(); fsd.clear(); msd.clear(); fsr.clear(); msr.clear(); }
                         break;
                     }
                     if (fm.size() != mm.size() || fm.empty() != mm.empty()) violate("C02/flat_map-size", "size()=%zu, std::map %zu", fm.size(), mm.size());
@@ -536,6 +638,9 @@ namespace
                         if (fsg.count(q) != msg.count(q)) violate("C02/flat_set-content-custom-order", "flat_set<int, std::greater>: count(%d) = %zu, std::set gives %zu", q, fsg.count(q), msg.count(q));
                         if (fsd.count(q * 7 - 5) != msd.count(q * 7 - 5)) violate("C02/flat_set-content-custom-order", "flat_set with a projection order: count(%d) differs from std::set", q * 7 - 5);
                     }
+                    for (int q = -3; q < 13; q++)
+                        if (fsr.count(q) != msr.count(q)) violate("C02/flat_set-content-custom-order", "flat_set built with a comparator object (%s, bucket width %d): count(%d) = %zu, std::set gives %zu", dir.descending ? "descending" : "ascending", dir.width, q, fsr.count(q), msr.count(q));
+                    if (fsr.size() != msr.size()) violate("C02/flat_set-size-custom-order", "flat_set built with a comparator object: size %zu, std::set %zu", fsr.size(), msr.size());
                     if (fsg.size() != msg.size() || fsd.size() != msd.size()) violate("C02/flat_set-size-custom-order", "flat_set with a non-default order: size differs from std::set");
                     tr.ev("op %d key %d -> %zu/%zu", k, key, mm.size(), ms.size());
                     check_deferred();
